@@ -5,6 +5,7 @@ import conc_corr
 def explore(run, lean):
     conc_corr.explore(run, "C05", 150 if run.tier == "quick" else 3000, escalate=bool(lean.get("broken")))
     conc_corr.explore_posters_only(run, "C05", 60 if run.tier == "quick" else 1500)
+    conc_corr.explore_first_use(run, "C05", 25 if run.tier == "quick" else 600)
     if run.tier == "thorough" and not run.violations:
         # systematic part: every schedule with at most two preemptions of four small scenarios + random/PCT runs of three-poster
         # scenarios, on the real threads, judged by the oracle (the same search the verdict logic uses when a tie breaks)
@@ -16,6 +17,8 @@ def explore(run, lean):
                          "primitive by primitive (label, result, enabled set) and on the final state; non-trivial = >=2 posters or "
                          "handler self-posts; distinct by (scenario, chooser seed)")
     run.assumptions.append("GIL atomicity of each deque/Queue/Event primitive; preemption inside a primitive is not modelled")
+    ROUND8_RULE = '; the first use of lazily created per-object structures raced by two threads (round 8)'
+    run.extra["rule"] = run.extra.get("rule", "") + ROUND8_RULE
 
 
 def replay(case):
